@@ -261,18 +261,20 @@ def _compile(
     context: Context,
     derived_resources: Iterable[DerivedResources] = (),
 ) -> CompiledRoutine[T]:
+    connections_map = _expand_connections(routine.connections)
+
+    local_variables = _compile_local_variables(routine.local_variables, inputs, backend)
+
+    # Constraints may mention local variables (a port size declared as an expression over them),
+    # so they have to be evaluated against the compiled local variables as well as the inputs.
     try:
-        new_constraints = evaluate_constraints(routine.constraints, inputs, backend)
+        new_constraints = evaluate_constraints(routine.constraints, {**local_variables, **inputs}, backend)
     except ConstraintValidationError as e:
         raise BartiqCompilationError(
             f"The following constraint was violated when compiling {context.path}: "
             + f"{e.args[0].lhs} = {e.args[0].rhs} evaluated into "
             + f"{e.args[1].lhs} = {e.args[1].rhs}."
         )
-
-    connections_map = _expand_connections(routine.connections)
-
-    local_variables = _compile_local_variables(routine.local_variables, inputs, backend)
 
     # Parameter map holds all of the assignments as nested dictionary.
     # The first level of nesting is the child name (or None for current routine assignments).
